@@ -34,10 +34,23 @@ pub fn tab(t: &mut Tape) -> usize {
     }
 }
 
+/// `blank_lines_upper_bound`: the default in four cases of five (the CLI cannot set anything else), else
+/// every small value and a huge one.
+pub fn blank(t: &mut Tape) -> usize {
+    match t.weighted(&[24, 2, 2, 1, 1, 1]) {
+        0 => 2,
+        1 => 0,
+        2 => 1,
+        3 => 3,
+        4 => t.range(4, 9),
+        _ => HUGE,
+    }
+}
+
 /// Width targeting: a width equal to the length of some line of the unconstrained output,
 /// +-1 — exactly where a group flips between flat and broken.
 pub fn targeted_width(t: &mut Tape, f: &dyn Formatter, src: &str, tab: usize) -> Option<usize> {
-    let Fmt::Ok(out) = f.format(src, &Cfg { width: HUGE, tab, reorder: false }) else { return None };
+    let Fmt::Ok(out) = f.format(src, &Cfg { width: HUGE, tab, reorder: false, blank: 2 }) else { return None };
     let lens: Vec<usize> = out.lines().map(|l| l.chars().count()).filter(|&l| l > 0).collect();
     if lens.is_empty() {
         return None;
@@ -54,5 +67,5 @@ pub fn config(t: &mut Tape, f: &dyn Formatter, src: &str, reorder_chance: u32) -
     let tab = tab(t);
     let width = if t.chance(64) { targeted_width(t, f, src, tab).unwrap_or(80) } else { width(t) };
     let reorder = t.chance(reorder_chance);
-    Cfg { width, tab, reorder }
+    Cfg { width, tab, reorder, blank: blank(t) }
 }
